@@ -257,6 +257,15 @@ func c01TxReal(in []string) (out string) {
 	defer mc.Close()
 	mc.SetUnitId(uint8(unhx(in[1])))
 	mc.SetEncoding(modbus.Endianness(atoi(in[2])), modbus.WordOrder(atoi(in[3])))
+	// "the configured byte/word order" is the last ACCEPTED configuration: selector
+	// pairs that must be refused (each carries the other valid value of one
+	// selector and an invalid value of the other) leave it as it is
+	if e1 := mc.SetEncoding(modbus.Endianness(3-atoi(in[2])), modbus.WordOrder(0)); e1 == nil {
+		return "harness-error:bad-selector-accepted"
+	}
+	if e2 := mc.SetEncoding(modbus.Endianness(7), modbus.WordOrder(3-atoi(in[3]))); e2 == nil {
+		return "harness-error:bad-selector-accepted"
+	}
 	r := callOp(mc, in[4:])
 	// C01 is about what is transmitted: the result is projected to rejected-locally / sent
 	if r == "err:params" {
